@@ -191,6 +191,10 @@ class FullCheck(BaseCheck):
     if scripted:
       for _ in range(rng.choice([0, 1, 2, 4]) + (rng.choice([2, 5, 9]) if bias.get('membership') else 0)):
         events.append((rng.random() * horizon, rng.choice(['leave', 'join'])))
+    if rng.random() < 0.25:
+      for _ in range(rng.choice([1, 2])):
+        events.append((rng.random() * horizon, 'hog'))
+    hogs = []
     events.sort(key=lambda e: e[0])
     t_start = env.now
     if boundary:
@@ -216,6 +220,16 @@ class FullCheck(BaseCheck):
         rec = w.call(m, args, timeout=T)
         if not rec['open_ready_at_issue']:
           classes.add('issued-before-open')
+      elif what == 'hog':
+        # the application issues a burst of asynchronous calls with tiny timeouts and then keeps
+        # the CPU (no greenlet switch) until after their deadlines: the clock moves, the loop does not
+        classes.add('cpu-hog')
+        for _k in range(rng.choice([1, 3, 6])):
+          cid = len(w.calls)
+          w.call('echo', ('c%d-%d' % (cid, rng.getrandbits(20)),), timeout=rng.choice([0.005, 0.02, 0.05]))
+        hs = env.now
+        env.clock.now += rng.choice([0.03, 0.08, 0.3])
+        hogs.append((hs, env.now))
       elif what == 'server-down':
         s = rng.choice(w.servers)
         s.sim.mode = rng.choice(['refuse', 'blackhole'])
@@ -301,6 +315,9 @@ class FullCheck(BaseCheck):
       is_timeout = c0['kind'] == 'exception' and isinstance(c0['payload'], ScalesTimeout)
       ob('deadline:', 2)
       bound = rounded_deadline(rec['t'] + rec['T'])
+      for hs, he in hogs:
+        if hs <= bound + EPS and he >= rec['t']:
+          bound = max(bound, he)      # nothing can run while the application keeps the CPU
       if c0['vt'] > bound + EPS:
         stats['late_after_deadline'] += 1
         viol('deadline:late', 'call %d (T=%.3fs) completed %.4fs after issue, %.4fs later than its deadline rounded '
